@@ -502,7 +502,14 @@ VariablesStack::findEntry(
         }
     }
 
-    if(theEntryIndex == m_stack.size() && fIsParam == false && true == fSearchGlobalSpace && m_globalStackFrameIndex > 1)
+    // m_globalStackFrameIndex is ~0u until the first top-level variable has
+    // been pushed, for example while the expression of a top-level parameter
+    // supplied by the caller is being evaluated...
+    if(theEntryIndex == m_stack.size() &&
+       fIsParam == false &&
+       true == fSearchGlobalSpace &&
+       m_globalStackFrameIndex > 1 &&
+       m_globalStackFrameIndex <= m_stack.size())
     {
         // Look in the global space
         for(size_type i = m_globalStackFrameIndex - 1; i > 0; i--)
